@@ -143,6 +143,7 @@ pub fn eval(case: &str) -> Out {
         "sd" if w.len() == 6 => eval_serde(w[2], w[5]),
         "lj" if w.len() == 4 => eval_locktime_json(w[2], w[3]),
         "dm" if w.len() == 3 => eval_probe(w[2]),
+        "ps" if w.len() == 3 => eval_pset_serde(w[2]),
         _ => Out::ok("harnesserr kind".into()),
     }
 }
@@ -284,6 +285,92 @@ fn eval_probe(name: &str) -> Out {
         _ => Out::ok("harnesserr probe type".into()),
     }
 }
+/// `C20 ps <hex of a PSET>`: exploration in support — the derived PartiallySignedTransaction serde (serde_derive, serde(flatten), serde_utils map
+/// encodings) has no Coq model; the model side echoes the fixed token "pset-serde" and only the predicate is evaluated here:
+/// deserialize(serialize(p)) == p through JSON text, serde_json::Value and CBOR bytes.
+/// round trip of one value through JSON text, serde_json::Value and CBOR bytes: (format, what failed) for every format that fails
+fn rt3<T: serde::Serialize + serde::de::DeserializeOwned + PartialEq>(v: &T) -> Vec<(&'static str, String)> {
+    let mut f = Vec::new();
+    match serde_json::to_string(v) {
+        Err(e) => f.push(("json", format!("does not serialize: {}", e))),
+        Ok(j) => match serde_json::from_str::<T>(&j) { Ok(q) if q == *v => {}, Ok(_) => f.push(("json", "own JSON text deserializes to a different value".into())), Err(e) => f.push(("json", format!("own JSON text does not deserialize: {}", e))) },
+    }
+    match serde_json::to_value(v) {
+        Err(e) => f.push(("json-value", format!("does not serialize: {}", e))),
+        Ok(j) => match serde_json::from_value::<T>(j) { Ok(q) if q == *v => {}, Ok(_) => f.push(("json-value", "own serde_json::Value deserializes to a different value".into())), Err(e) => f.push(("json-value", format!("own serde_json::Value does not deserialize: {}", e))) },
+    }
+    match serde_cbor::to_vec(v) {
+        Err(e) => f.push(("cbor", format!("does not serialize: {}", e))),
+        Ok(c) => match serde_cbor::from_slice::<T>(&c) { Ok(q) if q == *v => {}, Ok(_) => f.push(("cbor", "own CBOR deserializes to a different value".into())), Err(e) => f.push(("cbor", format!("own CBOR does not deserialize: {}", e))) },
+    }
+    f
+}
+fn eval_pset_serde(arg: &str) -> Out {
+    use elements::pset::PartiallySignedTransaction as Pset;
+    let p: Pset = match unhex(arg).and_then(|b| elements::encode::deserialize::<Pset>(&b).ok()) { Some(p) => p, None => return Out::ok("harnesserr pset".into()) };
+    let r = std::panic::catch_unwind(std::panic::AssertUnwindSafe(|| -> Option<String> {
+        // every failure of every component in every format; the maps are tried on their own because the whole PSET is blocked by F28
+        let mut fails: Vec<(String, &'static str, String)> = Vec::new();
+        for (k, i) in p.inputs().iter().enumerate() { for (fmt, what) in rt3(i) { fails.push((format!("pset::Input #{}", k), fmt, what)); } }
+        for (k, o) in p.outputs().iter().enumerate() { for (fmt, what) in rt3(o) { fails.push((format!("pset::Output #{}", k), fmt, what)); } }
+        for (fmt, what) in rt3(&p.global) { fails.push(("pset::Global".to_string(), fmt, what)); }
+        for (fmt, what) in rt3(&p) { fails.push(("PartiallySignedTransaction".to_string(), fmt, what)); }
+        // the known classes, by their cause
+        let class = |what: &str| -> Option<&'static str> {
+            if what.contains("duplicate field `version`") || what.contains("missing field `version`") { Some("F28-pset-serde-duplicate-version") }
+            else if what.contains("8-bit integer (byte) with value 0 or 1") { Some("F29-pset-serde-parity-visit-u8") }
+            else if what.contains("expected a borrowed string") { Some("F30-pset-serde-borrowed-str") }
+            else { None }
+        };
+        // anything outside the known classes first, so that a known finding never hides a new one
+        if let Some((who, fmt, what)) = fails.iter().find(|(_, _, w)| class(w).is_none()) { return Some(format!("pset-serde-{}|{}: {}", fmt, who, what)); }
+        // then one known class per case, rotating so that every class is reported when several apply
+        let mut keys: Vec<&'static str> = fails.iter().filter_map(|(_, _, w)| class(w)).collect();
+        keys.sort(); keys.dedup();
+        if keys.is_empty() { return None; }
+        let pick = keys[(arg.len() / 2) % keys.len()];
+        let (who, fmt, what) = fails.iter().find(|(_, _, w)| class(w) == Some(pick)).unwrap();
+        Some(format!("{}|{} ({}): {}", pick, who, fmt, what))
+    }));
+    match r {
+        Ok(fail) => Out { result: "pset-serde".into(), pred_fail: fail },
+        Err(_) => Out { result: "pset-serde".into(), pred_fail: Some("pset-serde-panic|serde (de)serialization of a PSET panicked".into()) },
+    }
+}
+fn ps(p: &elements::pset::PartiallySignedTransaction, mut tags: Vec<String>, out: &mut Vec<Case>) {
+    let b = elements::encode::serialize(p);
+    if b.len() > 40_000 || elements::encode::deserialize::<elements::pset::PartiallySignedTransaction>(&b).is_err() { return; }   // (C07's business)
+    tags.push("serde:pset-derived".into());
+    out.push(Case { text: format!("C20 ps {}", hex(&b)), tags, nontrivial: true });
+}
+fn gen_pset_serde(rng: &mut ChaCha20Rng, n: usize, thorough: bool, out: &mut Vec<Case>) {
+    use crate::c07::{base, set_global, set_input, set_output, shapes, taptree_of, N_GLOBAL, N_INPUT, N_OUTPUT};
+    use elements::pset::PartiallySignedTransaction as Pset;
+    // the repository's PSET literals and transactions turned into PSETs
+    for v in repo_hex_vectors() {
+        if v.len() > 30_000 { continue; }
+        if v.starts_with(b"pset\xff") { if let Ok(p) = elements::encode::deserialize::<Pset>(&v) { ps(&p, vec!["src:repo-vector".into()], out); } }
+        else if let Ok(tx) = elements::encode::deserialize::<elements::Transaction>(&v) { ps(&Pset::from_tx(tx), vec!["src:repo-tx-from_tx".into()], out); }
+    }
+    // every optional field alone
+    for f in 0..N_GLOBAL { let mut tags = vec!["src:one-field".to_string()]; let mut p = base(rng, 1, 1); set_global(&mut p, f, rng, &mut tags); ps(&p, tags, out); }
+    for f in 0..N_INPUT { let mut tags = vec!["src:one-field".to_string()]; let mut p = base(rng, 1, 1); set_input(&mut p.inputs_mut()[0], f, rng, &mut tags); ps(&p, tags, out); }
+    for f in 0..N_OUTPUT { let mut tags = vec!["src:one-field".to_string()]; let mut p = base(rng, 1, 1); set_output(&mut p.outputs_mut()[0], f, rng, &mut tags); ps(&p, tags, out); }
+    // tap trees of every shape
+    for nl in 1..=(if thorough { 5 } else { 3 }) { for sh in shapes(nl) { let mut p = base(rng, 0, 1); p.outputs_mut()[0].tap_tree = Some(taptree_of(rng, &sh)); ps(&p, vec!["src:taptree".into(), format!("leaves:{}", nl)], out); } }
+    // shapes and random subsets of the fields
+    for (ni, no) in [(0usize, 0usize), (0, 1), (1, 0), (3, 2)] { let p = base(rng, ni, no); ps(&p, vec!["src:shape".into()], out); }
+    for _ in 0..n / 2 {
+        let mut tags = vec!["src:random-subset".to_string()];
+        let (ni, no) = (rng.gen_range(0..3), rng.gen_range(0..3));
+        let mut p = base(rng, ni, no);
+        for _ in 0..rng.gen_range(0..4) { let f = rng.gen_range(0..N_GLOBAL); set_global(&mut p, f, rng, &mut tags); }
+        for i in 0..ni { for _ in 0..rng.gen_range(0..8) { let f = rng.gen_range(0..N_INPUT); set_input(&mut p.inputs_mut()[i], f, rng, &mut tags); } }
+        for i in 0..no { for _ in 0..rng.gen_range(0..4) { let f = rng.gen_range(0..N_OUTPUT); if f == 12 || f == 13 || f == 10 { continue; } set_output(&mut p.outputs_mut()[i], f, rng, &mut tags); } if rng.gen_range(0..4) == 0 { set_output(&mut p.outputs_mut()[i], 12, rng, &mut tags); } }
+        tags.sort(); tags.dedup();
+        ps(&p, tags, out);
+    }
+}
 /// `C20 lj <Variant> <n>`: a LockTime obtained from the JSON {"<Variant>": n} (the derived Deserialize), then Display -> FromStr
 fn eval_locktime_json(variant: &str, n: &str) -> Out {
     let show = |v: &LockTime| match v { LockTime::Blocks(h) => format!("B{}", h.to_consensus_u32()), LockTime::Seconds(t) => format!("S{}", t.to_consensus_u32()) };
@@ -397,6 +484,7 @@ fn gen_serde(rng: &mut ChaCha20Rng, n: usize, thorough: bool, out: &mut Vec<Case
 pub fn gen(rng: &mut ChaCha20Rng, n: usize, thorough: bool) -> Vec<Case> {
     let mut out = Vec::new();
     gen_serde(rng, n, thorough, &mut out);
+    gen_pset_serde(rng, n, thorough, &mut out);
     // ---- hash newtypes and blinding factors
     let per = (n / 40).max(2);
     for ty in HASH_TYPES.iter().chain(["AssetBlindingFactor", "ValueBlindingFactor"].iter()) {
